@@ -56,12 +56,14 @@ class Reservoir(object):
 
     def add(self, val):
         self._total_count += 1
-        if self._total_count <= self._cap:
+        # fill up to capacity first; comparing the stored count (not the
+        # total) keeps this right after resize() has grown the reservoir
+        if len(self._data) < self._cap:
             self._data.append(val)
             return
 
         idx = fast_randint(0, self._total_count)
-        if idx < self._cap:
+        if idx < len(self._data):
             self._data[idx] = val
         return
 
